@@ -104,7 +104,7 @@ def compare_pair(ctx, fam, shape, s1, e1, s2, e2, res_model, case, rng,
         tree, faults = texts.generate(rng, res_model)
         text = texts.render(tree)
         res.evaluations += 1
-        o1 = outcome.load_text(s1, text)
+        o1 = outcome.load_text(s1, case.get("prefix", "") + text)
         o2 = outcome.load_text(s2, text)
         res.count("compared")
         res.count("fam_" + fam)
@@ -498,6 +498,13 @@ def run_components(ctx, i, space):
                               "attribute": "cslot_%d" % ai})
     imports = rng.choice([[pc], [pa, pc], [pc, pb, pa], [pb, pb, pc],
                           [pa, pa], [pc, pc, pb]])
+    # some of the imports are made by the configuration text instead
+    # ('%import' lines in front of it): the same vocabulary in the end
+    late = []
+    if rng.random() < 0.3 and len(imports) > 1 and not cyclic:
+        cut = rng.randint(1, len(imports) - 1)
+        imports, late = imports[:cut], imports[cut:]
+        ctx.res.count("components_imported_by_the_text")
     head = "".join(
         ("<import package='%s' file='component.xml'/>" % p)
         if ef and (j + ef) % 2 == 0 else "<import package='%s'/>" % p
@@ -520,7 +527,7 @@ def run_components(ctx, i, space):
                            head_xml=head)
     # expansion: everything defined in place once, in definition order
     reach = set()
-    for p in imports:
+    for p in imports + late:
         reach.update({pa: [pa, pb] if cyclic else [pa], pb: [pa, pb],
                       pc: [pa, pb, pc]}[p])
     em = copy.deepcopy(m)
@@ -535,16 +542,40 @@ def run_components(ctx, i, space):
     x2 = family.render_xml(em)
     s1, e1 = load_schema_text(x1)
     s2, e2 = load_schema_text(x2)
+    via_base = rng.random() < 0.35
+    if via_base:
+        # the composed schema used as the base of a schema that adds
+        # nothing but the same imports once more (directly, or by way of a
+        # middle schema): the components are already there
+        ctx.res.count("components_through_base_schema")
+        d = os.path.join(ctx.tmp, "sext imp %41 x")
+        shutil.rmtree(d, ignore_errors=True)
+        os.makedirs(os.path.join(d, "sub"))
+        with open(os.path.join(d, "base.xml"), "w", encoding="utf-8") as f:
+            f.write(x1)
+        again = head if rng.random() < 0.7 else \
+            "<import package='%s'/>" % rng.choice(imports)
+        chain = rng.random() < 0.4
+        if chain:
+            with open(os.path.join(d, "sub", "mid.xml"), "w") as f:
+                f.write("<schema extends='../base.xml'>%s</schema>"
+                        % (again if rng.random() < 0.5 else ""))
+        with open(os.path.join(d, "main.xml"), "w") as f:
+            f.write("<schema extends='%s'>%s</schema>"
+                    % ("sub/mid.xml" if chain else "base.xml", again))
+        s1, e1 = load_schema_path(os.path.join(d, "main.xml"))
     compare_pair(ctx, "components", "imports=%d,reach=%d%s" % (
         len(imports), len(reach), (",cyclic" if cyclic else "") +
-        (",case-twins" if twins else "")),
+        (",case-twins" if twins else "") + (",via-base" if via_base else "")),
                  s1, e1, s2, e2, family.Resolved(em),
                  {"family": "components", "composed": x1, "expanded": x2,
                   "packages": {pa: packages.component_xml(ta, base),
                                pb: packages.component_xml(tb, base, [pa]),
                                pc: packages.component_xml(tc, base,
                                                           [pa, pb]),
-                               base: packages.abstract_xml(model)}}, rng)
+                               base: packages.abstract_xml(model)},
+                  "prefix": "".join("%%import %s\n" % p for p in late)},
+                 rng)
 
 
 def run_shard(ctx):
@@ -552,7 +583,8 @@ def run_shard(ctx):
     space = packages.PackageSpace(os.path.join(ctx.tmp, "pkgs"),
                                   "c11s%d" % ctx.shard)
     space.split_every = 3
-    d = os.path.join(ctx.tmp, "sext")
+    # a directory name with characters that mean something in a URL
+    d = os.path.join(ctx.tmp, "sext %41 #1 é")
     try:
         for i in range(n):
             if not ctx.mine(i):
@@ -591,7 +623,7 @@ def replay(ctx, case):
             return
         if s1 is None or "text" not in case:
             return
-        o1 = outcome.load_text(s1, case["text"])
+        o1 = outcome.load_text(s1, case.get("prefix", "") + case["text"])
         o2 = outcome.load_text(s2, case["text"])
         if key(o1) != key(o2):
             ctx.res.violate("composed-differs-from-expansion", case,
